@@ -215,6 +215,34 @@ def r2_r3_fit(repo, rep, cls):
             rep.violation('R2/report-equals-removal', fit.qualname, norm(n.ast),
                           'the %s mask is applied without negation: the reported rows are kept and all others removed' % key, fit.loc(n.ast))
             applied = True
+    if not applied:
+      # removal by row label: self._data.drop(index=self._data.index[mask]) removes every row that SHARES a label with a
+      # reported row -- more than the reported rows when the caller's frame has a non-unique index (pd.concat of two frames)
+      by_label = []
+      from mmsa.types import FuncCtx as _FC
+      for h_ in fit.cls.all_functions() if fit.cls is not None else [fit]:
+        hc_ = _FC.of(h_)
+        for n_ in hc_.g.nodes:
+          if n_.kind not in ('stmt', 'return'):
+            continue
+          for c_ in au.calls_in(n_.ast):
+            if isinstance(c_.func, ast.Attribute) and c_.func.attr == 'drop' and 'self._data' in norm(hc_.rd.expand(n_, c_.func.value)[0]):
+              for a_ in list(c_.args) + [k_.value for k_ in c_.keywords if k_.arg in (None, 'index', 'labels')]:
+                ax_ = hc_.rd.expand(n_, a_)[0]
+                if any(isinstance(x_, ast.Attribute) and x_.attr == 'index' for x_ in ast.walk(ax_)):
+                  by_label.append(c_)
+      if by_label:
+        rep.violation('R2/report-equals-removal', fit.qualname, norm(by_label[0])[:120],
+                      'the reported %s are removed by row label (`%s`): when the input frame has a non-unique index every row sharing a label with a reported row is removed too, so the screened data are not the input minus the reported rows'
+                      % (key, norm(by_label[0])[:80]), fit.loc(by_label[0]))
+        continue
+      # the removal is not in a recognised form: is the data handed to something that could do it, or filtered in another spelling?
+      other_filters = [n_ for n_ in g.nodes if n_.kind == 'stmt' and isinstance(n_.ast, ast.Assign) and any(norm(t_) == 'self._data' for t_ in n_.ast.targets)
+                       and 'self._data' in norm(n_.ast.value)]
+      if other_filters or au.delegations(repo, fit):
+        rep.undecided('R2/report-equals-removal', "negated '%s' mask is applied to the screened data" % key,
+                      'self._data is re-bound (%s) but not by the recognised negated-mask subscript' % (norm(other_filters[0].ast)[:60] if other_filters else 'in a helper that is not followed'), fit.loc(fn.ast))
+        continue
     rep.check(applied, 'R2/report-equals-removal', "negated '%s' mask is applied to the screened data" % key, fit.qualname,
               'mask %s' % mask, 'the mask of reported %s is never applied (negated) to self._data' % key, fit.loc(fn.ast))
   rep.floor('report/removal pairs', pairs, 2)
